@@ -171,6 +171,8 @@ class CommandResponse(Response):
 
         """
         for resp in responses:
+            if resp.merge_barrier:
+                self._mergeable.clear()
             try:
                 merge_key = resp.merge_key
             except TypeError:
@@ -248,6 +250,14 @@ class UntaggedResponse(Response):
     @asynccontextmanager
     async def _noop_cm(cls) -> AsyncIterator[None]:
         yield
+
+    @property
+    def merge_barrier(self) -> bool:
+        """True if responses added after this one must not be merged into
+        responses added before it, e.g. because it renumbers messages.
+
+        """
+        return False
 
     @property
     def merge_key(self) -> Hashable:
